@@ -26,6 +26,10 @@ type kScript struct {
 	N      int   `json:"n"`
 	Fail   []int `json:"fail"`   // messages the library fails, asynchronously
 	Repeat int   `json:"repeat"` // the outcome depends on a select between two ready cases: repeat
+	// Strict: the channels as the library has them - errors are handed over one at a time on an UNBUFFERED channel and
+	// the library takes no further input while it waits for the application to take one (a refused produce request
+	// reports every message of the batch), little room on the input side
+	Strict bool `json:"strict"`
 }
 
 type kEvent struct {
@@ -43,21 +47,48 @@ type kResult struct {
 }
 
 type kFake struct {
-	in     chan *sarama.ProducerMessage
-	errs   chan *sarama.ProducerError
-	succ   chan *sarama.ProducerMessage
-	mu     sync.Mutex
-	got    [][]byte
-	ptrs   []*sarama.ProducerMessage // the library owns a message once it has accepted it, and encodes it later
-	topics []string
-	fail   map[int]bool
-	events *[]kEvent
-	done   chan struct{}
+	in      chan *sarama.ProducerMessage
+	errs    chan *sarama.ProducerError
+	succ    chan *sarama.ProducerMessage
+	mu      sync.Mutex
+	got     [][]byte
+	ptrs    []*sarama.ProducerMessage // the library owns a message once it has accepted it, and encodes it later
+	topics  []string
+	fail    map[int]bool
+	events  *[]kEvent
+	done    chan struct{}
+	closing chan struct{}
 }
 
-func newKFake(fail map[int]bool, events *[]kEvent) *kFake {
+func newKFake(fail map[int]bool, events *[]kEvent, strict bool) *kFake {
 	f := &kFake{in: make(chan *sarama.ProducerMessage, 256), errs: make(chan *sarama.ProducerError, 256),
-		succ: make(chan *sarama.ProducerMessage, 256), fail: fail, events: events, done: make(chan struct{})}
+		succ: make(chan *sarama.ProducerMessage, 256), fail: fail, events: events, done: make(chan struct{}), closing: make(chan struct{})}
+	if strict {
+		f.in, f.errs = make(chan *sarama.ProducerMessage, 2), make(chan *sarama.ProducerError)
+		go func() {
+			defer close(f.done)
+			for m := range f.in {
+				b, _ := m.Value.Encode()
+				f.mu.Lock()
+				f.got = append(f.got, b)
+				f.ptrs = append(f.ptrs, m)
+				f.topics = append(f.topics, m.Topic)
+				k := len(f.got)
+				bad := f.fail[k]
+				if bad {
+					*f.events = append(*f.events, kEvent{Ev: "fail", M: k})
+				}
+				f.mu.Unlock()
+				if bad {
+					select { // nothing else happens in the library until the application has taken the error (or closes)
+					case f.errs <- &sarama.ProducerError{Msg: m, Err: errors.New("kafka: broker not available (scripted)")}:
+					case <-f.closing:
+					}
+				}
+			}
+		}()
+		return f
+	}
 	go func() {
 		defer close(f.done)
 		n := 0
@@ -80,7 +111,7 @@ func newKFake(fail map[int]bool, events *[]kEvent) *kFake {
 }
 
 func (f *kFake) AsyncClose()                               { close(f.in) }
-func (f *kFake) Close() error                              { close(f.in); <-f.done; return nil }
+func (f *kFake) Close() error                              { close(f.closing); close(f.in); <-f.done; return nil }
 func (f *kFake) Input() chan<- *sarama.ProducerMessage     { return f.in }
 func (f *kFake) Successes() <-chan *sarama.ProducerMessage { return f.succ }
 func (f *kFake) Errors() <-chan *sarama.ProducerError      { return f.errs }
@@ -93,7 +124,7 @@ func kRun(sc kScript) (res kResult) {
 		for _, k := range sc.Fail {
 			fail[k] = true
 		}
-		fake := newKFake(fail, &events)
+		fake := newKFake(fail, &events, sc.Strict)
 		k := &KafkaSarama{producer: fake, logger: log.New(ioutil.Discard, "", 0)}
 		ch := make(chan []byte)
 		var ec uint64
